@@ -321,6 +321,26 @@ theorem score_closes_with_tail {sc sc' : Score} {s : Sender} {tail : Rat}
   rw [hl, e1, hbnil]
   simp [hmb]
 
+/-- `duration` is the time, in seconds, of the latest listed bundle (repair D-C07-2) -/
+theorem duration_is_latest_time {sc : Score} (h : Reachable sc) (t : Rat) (hd : sc.duration = some t) :
+    (∃ e ∈ sc.entries, e.time = t) ∧ ∀ e ∈ sc.entries, e.time ≤ t := by
+  have hs := score_sorted h
+  unfold Score.duration at hd
+  cases hl : sc.entries.getLast? with
+  | none => simp [hl] at hd
+  | some m =>
+    simp only [hl, Option.map_some, Option.some.injEq] at hd
+    obtain ⟨l, hl'⟩ : ∃ l, sc.entries = l ++ [m] := by
+      rw [List.getLast?_eq_some_iff] at hl; exact hl
+    refine ⟨⟨m, by rw [hl']; simp, hd⟩, ?_⟩
+    intro e he
+    rw [hl'] at he hs
+    unfold Sorted at hs
+    rw [List.pairwise_append] at hs
+    rcases List.mem_append.mp he with he' | he'
+    · rw [← hd]; exact hs.2.2 e he' m (by simp)
+    · simp at he'; subst he'; exact le_of_eq hd
+
 /-! Non-vacuity: a routine at logical time 3/4 sends `[1/4, ['/a', 1], [1/2, ['/b']]]`; the entry is
 listed at 1 with the nested bundle at 5/4, the tail marker closes the score. -/
 def exBundle : List PV :=
